@@ -24,4 +24,13 @@ theorem fact_feemarket_after_gov : Gen.endBlockers.take 5 = ["crisis", "gov", "s
 /-- `MaxGas > 0` is the only condition under which a finite gas limit is used (model: `gasLimitOf`) -/
 theorem fact_maxgas_guard : Gen.calculateBaseFeeMaxGasConds = ["consParams.Block.MaxGas > 0"] := by decide
 
+/-- the guards of `CalculateBaseFee`, in order: finite gas limit only for `MaxGas > 0`; **the zero-target guard is
+on the gas target** (limit / elasticity), not on the limit — `MaxGas = 1` has target 0 and must keep the base fee
+(model: `calcBaseFee` returns the current fee when `L / elasticity = 0`; `C09_total_no_divzero`); saturation at 256 bits -/
+theorem fact_basefee_guards :
+    Gen.calculateBaseFeeGuards =
+      ["consParams.Block!=nil&&consParams.Block.MaxGas>0",
+       "gasLimit.Uint64()/ethparams.ElasticityMultiplier==0",
+       "nextBaseFee.BitLen()>sdkmath.MaxBitLen"] := by decide +kernel
+
 end Evermint.Facts.C09
